@@ -107,9 +107,9 @@ def body(c):
                     "INVARIANT Emit\nINVARIANT SpecRoundTrip\nINVARIANT Lattice\nINVARIANT NativeRange\nINVARIANT KindExclusive\n"
                     % ("TRUE" if full16 else "FALSE"))
         m_runs = run_parallel({
-            "bignat": lambda: vlib.run_tlc("common/MC_BigNat.tla", "common/MC_BigNat.cfg", workers=2, coverage=True, timeout=900),
-            "registry": lambda: vlib.run_tlc("lex/MC_ScalarRegistry.tla", "lex/MC_ScalarRegistry.cfg", workers=2, coverage=True, timeout=900),
-            "gen": lambda: vlib.run_tlc("lex/Gen_Scalars.tla", cfg, workers=4 if c.quick else 8, timeout=3000, keep_lines=60, xmx="8g"),
+            "bignat": lambda: vlib.run_tlc("common/MC_BigNat.tla", "common/MC_BigNat.cfg", workers=1, coverage=True, timeout=900),
+            "registry": lambda: vlib.run_tlc("lex/MC_ScalarRegistry.tla", "lex/MC_ScalarRegistry.cfg", workers=1, coverage=True, timeout=900),
+            "gen": lambda: vlib.run_tlc("lex/Gen_Scalars.tla", cfg, workers=2 if c.quick else 4, timeout=3000, keep_lines=60, xmx="8g"),
             "build": lambda: vlib.build_harness(["c07"]),       # cargo is mostly waiting for locks: overlap it with TLC
         })
         for k, what in (("bignat", "BigNat.tla"), ("registry", "ScalarRegistry.tla"), ("gen", "Scalars.tla (self-consistency invariants)")):
@@ -161,7 +161,7 @@ def body(c):
         raise vlib.ToolError("harness wrote %d observations for %d cases" % (n, n_cases))
     seen, by_v, n_verdicts = {}, {}, 0
     for pi, part in enumerate(parts):
-        v = vlib.run_tlc("lex/ScalarsTrace.tla", "lex/ScalarsTrace.cfg", env={"TRACE": part}, workers=8, timeout=3000,
+        v = vlib.run_tlc("lex/ScalarsTrace.tla", "lex/ScalarsTrace.cfg", env={"TRACE": part}, workers=4, timeout=3000,
                          keep_lines=50, xmx="8g")
         verdicts = {t[1]: (t[2], t[3]) for t in v.tagged("VERDICT")}
         n_verdicts += len(verdicts)
